@@ -20,23 +20,28 @@ type Item struct {
 	Bind bool     `json:"bind,omitempty"` // the reloaded value is bound to *c19-obj* for the probes
 	Pre  []string `json:"pre,omitempty"`  // what the fresh world needs before the reload
 	Info string   `json:"info,omitempty"` // package name for the Go-level structure probe
+	// Redef counts how often the item is defined again before the snapshot
+	Redef int `json:"redef,omitempty"`
 }
 
 // sctx is the state of one generated session.
 type sctx struct {
-	r       *rand.Rand
-	n       int
-	feat    string   // the one avoid-set construct this session carries ("" = none)
-	used    bool     // the feature has been placed
-	flavors []string // names defined so far (their defining forms are in defs)
-	defs    map[string][]string
-	funs    []string
-	exports bool // packages may export names (def mode)
-	plain   bool // no quoted-data or computed defaults (the item's instances are load-formed)
-	fl      map[string]*flInfo
-	last    string // the most derived flavor of the session's chain
-	placed  string // feature placed by a helper on the item being built
-	nflavor int
+	r        *rand.Rand
+	n        int
+	feat     string   // the one avoid-set construct this session carries ("" = none)
+	used     bool     // the feature has been placed
+	flavors  []string // names defined so far (their defining forms are in defs)
+	defs     map[string][]string
+	funs     []string
+	exports  bool   // packages may export names (def mode)
+	plain    bool   // no quoted-data or computed defaults (the item's instances are load-formed)
+	override string // the name the next item has to take (redefinition)
+	capture  bool   // remember the next generated name
+	captured string
+	fl       map[string]*flInfo
+	last     string // the most derived flavor of the session's chain
+	placed   string // feature placed by a helper on the item being built
+	nflavor  int
 }
 
 func newSctx(r *rand.Rand, feat string) *sctx {
@@ -46,8 +51,56 @@ func newSctx(r *rand.Rand, feat string) *sctx {
 var nameWords = []string{"alpha", "beta", "gamma", "delta", "omega", "x", "tmp", "counter", "a-quite-long-descriptive-name", "zz"}
 
 func (s *sctx) name(prefix string) string {
+	if s.override != "" {
+		// a redefinition: the item's own name is the one already in use
+		n := s.override
+		s.override = ""
+		s.n++
+		return n
+	}
 	s.n++
-	return fmt.Sprintf("%s%s%d", prefix, fw.Pick(s.r, nameWords), s.n)
+	n := fmt.Sprintf("%s%s%d", prefix, fw.Pick(s.r, nameWords), s.n)
+	if s.capture {
+		s.captured, s.capture = n, false
+	}
+	return n
+}
+
+// redefined builds an item and then defines it again, times more times,
+// under the same name with whatever the generator draws next (another lambda
+// list, documentation, body, variable set ...). All versions are evaluated in
+// order before the snapshot; the probes are those of the last version: the
+// restored world has to behave like the last definitions.
+func (s *sctx) redefined(times int, build func() Item) Item {
+	s.capture = true
+	prevLast, prevN := s.last, s.nflavor
+	it := build()
+	s.capture = false
+	inner := s.captured
+	for k := 0; k < times && inner != ""; k++ {
+		s.override = inner
+		s.last, s.nflavor = prevLast, prevN
+		nx := build()
+		s.override = ""
+		it.Forms = append(it.Forms, nx.Forms...)
+		it.Probes, it.Obj, it.Info, it.Bind = nx.Probes, nx.Obj, nx.Info, nx.Bind
+		if it.Feat == "" {
+			it.Feat = nx.Feat
+		}
+		it.Redef++
+	}
+	return it
+}
+
+// times draws how often an item is redefined: mostly never.
+func (s *sctx) times() int {
+	switch s.r.IntN(8) {
+	case 0:
+		return 2
+	case 1, 2:
+		return 1
+	}
+	return 0
 }
 
 // want tells whether this item is to carry the session's feature.
@@ -818,6 +871,18 @@ func (s *sctx) genericItem() Item {
 			mdoc = litString("method "+fw.Pick(r, words[:10])) + " "
 		}
 		it.Forms = append(it.Forms, fmt.Sprintf("(defmethod %s (%s) %s%s)", name, mll, mdoc, body))
+		if r.IntN(5) == 0 {
+			// the same specializers again: the method is replaced
+			g2 := newCG(r)
+			g2.ints = g.ints
+			body = fmt.Sprintf("(setq %s (cons 'r%d %s)) (list 'r%d %s %s)", tr, k, tr, k, g2.Int(2), strings.Join(params, " "))
+			mdoc = ""
+			if r.IntN(3) == 0 {
+				mdoc = litString("again "+fw.Pick(r, words[:10])) + " "
+			}
+			it.Forms = append(it.Forms, fmt.Sprintf("(defmethod %s (%s) %s%s)", name, mll, mdoc, body))
+			it.Redef++
+		}
 	}
 	// one qualified method on the first primary's specializers
 	if 0 < len(primaries) && r.IntN(3) == 0 && primaries[0][len(primaries[0])-1] != -1 {
@@ -959,7 +1024,7 @@ func buildDefCase(r *rand.Rand, kind, feat string) Case {
 			}
 		}
 		s.feat = feat
-		it = s.flavorItem(false, "")
+		it = s.redefined(s.times(), func() Item { return s.flavorItem(false, "") })
 	case "flavor-instance":
 		it = s.flavorInstanceItem()
 	case "class":
@@ -968,9 +1033,9 @@ func buildDefCase(r *rand.Rand, kind, feat string) Case {
 			s.feat = ""
 			p := s.classItem(nil)
 			s.feat = sf
-			it = s.classItem(&p)
+			it = s.redefined(s.times(), func() Item { return s.classItem(&p) })
 		} else {
-			it = s.classItem(nil)
+			it = s.redefined(s.times(), func() Item { return s.classItem(nil) })
 		}
 	case "class-instance":
 		it = s.classInstanceItem()
@@ -1004,13 +1069,13 @@ func buildSessionCase(r *rand.Rand, feat string, n int) Case {
 		case k == 17:
 			it = s.clvarItem()
 		case k < 5:
-			it = s.varItem()
+			it = s.redefined(s.times(), s.varItem)
 		case k < 7:
 			it = s.constItem()
 		case k < 11:
-			it = s.funItem()
+			it = s.redefined(s.times(), s.funItem)
 		case k < 13:
-			it = s.macroItem()
+			it = s.redefined(s.times(), s.macroItem)
 		case k < 15:
 			// the order in which a snapshot lists unrelated flavors is not
 			// stable: a session holds one inheritance chain at most
@@ -1020,7 +1085,8 @@ func buildSessionCase(r *rand.Rand, feat string, n int) Case {
 			if p := s.fl[s.last]; p != nil && (!p.capable || 3 <= p.depth) {
 				continue
 			}
-			it = s.flavorItem(r.IntN(3) == 0, "")
+			wi := r.IntN(3) == 0
+			it = s.redefined(s.times(), func() Item { return s.flavorItem(wi, "") })
 		case k < 16:
 			it = s.genericItem()
 		default:
